@@ -56,6 +56,10 @@ type aggEnv struct {
 	reporter chan int64 // parked first reporter call of a scan (nil: not parked)
 	H        aggHeld
 	implicit bool // an unplanned scan was answered since the flag was last cleared
+	// back-pressure mode (`aggregator outcap <n>`): the output channel holds only n statistics and the
+	// harness is a slow consumer - it takes statistics out only when the channel is full (the reporter is
+	// then blocked in its send, holding the lock). What was taken out is kept in buf until the next drain.
+	buf []stats.Stat
 }
 
 func aggCaller() int {
@@ -76,8 +80,8 @@ func aggCaller() int {
 	}
 }
 
-func newAggEnv(w int64) *aggEnv {
-	e := &aggEnv{sh: shutdown.NewShutdownHandler(), in: make(chan stats.Stat), out: make(chan stats.Stat, 4096),
+func newAggEnv(w int64, outCap int) *aggEnv {
+	e := &aggEnv{sh: shutdown.NewShutdownHandler(), in: make(chan stats.Stat), out: make(chan stats.Stat, outCap),
 		ingestReq: make(chan chan int64), reporterReq: make(chan chan int64), done: make(chan struct{}), w: w, H: aggHeld{}}
 	clock := func() time.Time {
 		reply := make(chan int64, 1)
@@ -129,8 +133,26 @@ func (e *aggEnv) probe() chan aggHeld {
 	return ch
 }
 
+// pump: slow consumer - relieve the output channel only when it is full
+func (e *aggEnv) pump() {
+	if len(e.out) == cap(e.out) {
+		for {
+			select {
+			case s, ok := <-e.out:
+				if !ok {
+					return
+				}
+				e.buf = append(e.buf, s)
+			default:
+				return
+			}
+		}
+	}
+}
+
 func (e *aggEnv) drain() []stats.Stat {
-	var l []stats.Stat
+	l := e.buf
+	e.buf = nil
 	for {
 		select {
 		case s, ok := <-e.out:
@@ -154,12 +176,16 @@ func (e *aggEnv) flush() bool {
 	e.implicit = true
 	pr := e.probe()
 	t := time.After(aggWait)
+	pt := time.NewTicker(2 * time.Millisecond)
+	defer pt.Stop()
 	for {
 		select {
 		case r := <-e.reporterReq:
 			r <- aggLowNow
 		case <-pr:
 			return true
+		case <-pt.C:
+			e.pump()
 		case <-t:
 			return false
 		}
@@ -194,6 +220,8 @@ func (e *aggEnv) quiesce() bool {
 	}
 	pr := e.probe()
 	t := time.After(aggWait)
+	pt := time.NewTicker(2 * time.Millisecond)
+	defer pt.Stop()
 	for {
 		select {
 		case h := <-pr:
@@ -204,6 +232,8 @@ func (e *aggEnv) quiesce() bool {
 			if !e.flush() {
 				return false
 			}
+		case <-pt.C:
+			e.pump()
 		case <-t:
 			return false
 		}
@@ -239,12 +269,16 @@ func (e *aggEnv) plannedScan(readings []int64) ([]int64, []stats.Stat, bool) {
 	e.reporter = nil
 	pr := e.probe()
 	t := time.After(aggWait)
+	pt := time.NewTicker(2 * time.Millisecond)
+	defer pt.Stop()
 	for {
 		select {
 		case r := <-e.reporterReq:
 			r <- next()
 		case <-pr:
 			return used, e.drain(), true
+		case <-pt.C:
+			e.pump()
 		case <-t:
 			return used, nil, false
 		}
@@ -431,10 +465,16 @@ func aggregatorRun(c Case) (lines []string, outs []string) {
 		return
 	}
 	ops := []aggOp{}
+	outCap := 4096
 	for _, l := range c.Lines[1:] {
 		w := strings.Fields(l)
 		bad := func() { ops = append(ops, aggOp{kind: "bad", words: []string{l}}) }
 		switch {
+		case len(w) == 3 && w[1] == "outcap":
+			// harness-only line (not sent to the model: the model's reports do not depend on the consumer)
+			if n, err := strconv.Atoi(w[2]); err == nil && n >= 1 && n <= 4096 {
+				outCap = n
+			}
 		case len(w) == 9 && w[1] == "stat":
 			if s, now, ok := aggParseStat(w[2:]); ok {
 				ops = append(ops, aggOp{kind: "stat", s: s, now: now, words: w})
@@ -460,7 +500,7 @@ func aggregatorRun(c Case) (lines []string, outs []string) {
 		}
 	}
 	emit(c.Lines[0], "ok")
-	e := newAggEnv(win)
+	e := newAggEnv(win, outCap)
 	defer e.stop()
 	defer func() {
 		if r := recover(); r != nil {
@@ -755,6 +795,10 @@ func aggregatorGen(r *Rng, tier string) Case {
 	win := Pick(r, []int64{sec, 2 * sec, 10 * sec, 60 * sec, 60 * sec, 1500000000})
 	base := win * int64(r.Range(3, 40))
 	lines := []string{fmt.Sprintf("aggregator cfg %d", win)}
+	if r.Chance(25) {
+		// back-pressure: a small output channel and a consumer that only takes when it is full
+		lines = append(lines, fmt.Sprintf("aggregator outcap %d", Pick(r, []int{1, 2, 3, 5, 8})))
+	}
 	// identities of this case
 	nid := r.Range(1, 4)
 	ids := [][4]string{}
